@@ -113,6 +113,7 @@ func (f *fAdapterTransport) readLoop() {
 			f.close(err)
 			return
 		}
+		verifHook("readloop.frame.done", 0)
 	}
 }
 
@@ -208,6 +209,7 @@ func (f *fAdapterTransport) Request(fctx FContext, payload []byte) (thrift.TTran
 
 	f.registry.Register(fctx, resultC)
 	defer f.registry.Unregister(fctx)
+	verifHookCtx("request.registered", fctx)
 
 	ctx, cancelFn := ToContext(fctx)
 	defer cancelFn()
@@ -216,10 +218,12 @@ func (f *fAdapterTransport) Request(fctx FContext, payload []byte) (thrift.TTran
 
 	select {
 	case result := <-resultC:
+		verifHookCtx("request.gotResult", fctx)
 		return &thrift.TMemoryBuffer{Buffer: bytes.NewBuffer(result)}, nil
 	case err := <-errorC:
 		return nil, err
 	case <-ctx.Done():
+		verifHookCtx("request.timedOut", fctx)
 		return nil, thrift.NewTTransportException(TRANSPORT_EXCEPTION_TIMED_OUT, "frugal: request timed out")
 	}
 }
